@@ -36,6 +36,8 @@ ROUTE_DIMS = ("method", "path", "query", "body")          # dimensions whose mea
 # routes whose well-formed request by the administrator stops the server: those cases run last, on a server of their own
 STOPS = {"POST /services/admin/down/": "stops the server", "POST /services/cluster/shutdown": "stops the server (cluster token holders)"}
 REQ_TIMEOUT = 120
+http.client._MAXLINE = 64 * 1024 * 1024          # a handler may echo a 1 MiB value into a response header (Location): still an answer
+http.client._MAXHEADERS = 10000
 
 
 def cached(name, key, build):
@@ -329,20 +331,21 @@ class Fixture:
                 r = self.root("GET", "/admin/users/" + u)
                 if not ok(r, 200):
                     self.root("POST", "/admin/users/", {"name": u, "password": self.users[u][0], "permissions": self.users[u][1]})
-            for d in ("d1", "dvictim"):
+            for d in ("d1", "d2", "dvictim"):
                 r = self.root("GET", "/dsns/%s/" % d)
                 if not ok(r, 200):
-                    r = self.root("POST", "/dsns/", {"name": d, "provider": "sqlite", "database": self.sqlite(d), "restricted": False})
+                    r = self.root("POST", "/dsns/", {"name": d, "provider": "sqlite", "database": self.sqlite(d), "restricted": False, "rowid": d == "d2"})
                     if not ok(r, 200, 201) and full:
                         raise vf.NoVerdict("setup: cannot create DSN %s: %r" % (d, r))
-            for t in ("t1", "trows", "tvictim"):
-                r = self.root("GET", "/dsns/d1/tables/" + t)
+            for d, t in (("d1", "t1"), ("d1", "trows"), ("d1", "tvictim"), ("d2", "trows")):
+                r = self.root("GET", "/dsns/%s/tables/%s" % (d, t))
                 if not ok(r, 200):
-                    r = self.root("PUT", "/dsns/d1/tables/" + t, [{"name": "id", "type": "int"}, {"name": "name", "type": "string"}])
+                    r = self.root("PUT", "/dsns/%s/tables/%s" % (d, t), [{"name": "id", "type": "int"}, {"name": "name", "type": "string"}])
                     if not ok(r, 200, 201) and full and t == "t1":
                         raise vf.NoVerdict("setup: cannot create table %s: %r" % (t, r))
                     if t != "tvictim":
-                        self.root("PUT", "/dsns/d1/tables/%s/rows" % t, [{"id": 1, "name": "one"}, {"id": 2, "name": "two"}, {"id": 3, "name": "three"}])
+                        self.root("PUT", "/dsns/%s/tables/%s/rows" % (d, t), [{"id": 1, "name": "one"}, {"id": 2, "name": "two"}, {"id": 3, "name": "three"}])
+                    self.root("GET", "/dsns/%s/tables/%s" % (d, t))      # the server caches a table's column metadata when it is first described
             self.root("POST", "/dsns/@permissions", {"dsn": "d1", "user": "bob", "actions": ["+read"]})
             self.ensure_loggers()
 
@@ -454,6 +457,14 @@ def base_requests(fx):
         "PUT /dsns/{{dsn}}/tables/{{table}}/rows": {"vars": {"table": "trows"}, "body": [{"id": 7, "name": "seven"}, {"id": 8, "name": "eight"}]},
         "PUT /dsns/{{dsn}}/tables/{{table}}/rows #rowset": {"vars": {"table": "trows"}, "body": {"rows": [{"id": 9, "name": "nine"}], "count": 1}},
         "PUT /dsns/{{dsn}}/tables/{{table}}/rows #single": {"vars": {"table": "trows"}, "body": {"id": 10, "name": "ten"}, "query": {"upsert": "id"}},
+        "PUT /dsns/{{dsn}}/tables/{{table}}/rows #rowid": {"vars": {"dsn": "d2", "table": "trows"}, "body": [{"id": 7, "name": "seven"}]},
+        "PUT /dsns/{{dsn}}/tables/{{table}}/rows #rowid-abstract": {"vars": {"dsn": "d2", "table": "trows"}, "query": {"abstract": "true"},
+                                                                    "body": {"columns": [{"name": "id", "type": "int"}, {"name": "name", "type": "string"}],
+                                                                             "rows": [[11, "eleven"]], "count": 1}},
+        "PATCH /dsns/{{dsn}}/tables/{{table}}/rows #rowid": {"vars": {"dsn": "d2", "table": "trows"}, "body": {"name": "renamed"}, "query": {"filter": "EQ(id,2)"}},
+        "GET /dsns/{{dsn}}/tables/{{table}}/rows #rowid": {"vars": {"dsn": "d2", "table": "trows"}, "query": {"abstract": "true"}},
+        "POST /dsns/{{dsn}}/tables/@transaction #rowid": {"vars": {"dsn": "d2"}, "body": [{"operation": "insert", "table": "trows", "data": {"id": 51, "name": "tx"}},
+                                                                                          {"operation": "delete", "table": "trows", "filters": ["EQ(id,51)"]}]},
         "PUT /dsns/{{dsn}}/tables/{{table}}/rows #abstract": {"vars": {"table": "trows"}, "query": {"abstract": "true"},
                                                               "body": {"columns": [{"name": "id", "type": "int"}, {"name": "name", "type": "string"}],
                                                                        "rows": [[11, "eleven"], [12, "twelve"]], "count": 2}},
@@ -1029,13 +1040,12 @@ def builds(sd):
     ov_h = vf.make_overlay(hd, HARNESS)
 
     def b_ego(out):
-        vf.go_build(ov_plain, ".", out, tags="verif")
+        vf.go_build(ov_plain, ".", out, tags="verif", timeout=3600)
 
     def b_test(out):
-        vf.go_test_compile(ov_h, "./internal/commands/", out, tags="verif")
-    with ThreadPoolExecutor(2) as ex:
-        f1, f2 = ex.submit(cached, "ego", key, b_ego), ex.submit(cached, "commands.test", key, b_test)
-        ego, tst = f1.result(), f2.result()
+        vf.go_test_compile(ov_h, "./internal/commands/", out, tags="verif", timeout=3600)
+    ego = cached("ego", key, b_ego)                     # one after the other: the second build finds the packages of the first in the go cache
+    tst = cached("commands.test", key, b_test)
     # private copies: a concurrent run pruning the cache must not pull the binaries from under this run
     ego2, tst2 = os.path.join(sd, "ego"), os.path.join(sd, "commands.test")
     shutil.copy(ego, ego2)
